@@ -56,6 +56,17 @@ def alpha_rows(arr, rows):
     return sg, nn
 
 
+def make_QA_S(arr):
+    """the same sequence held scalar-last (order='S'): columns rolled on the way in, results rolled back by the caller"""
+    a = np.roll(np.array(arr, dtype=float), -1, axis=1)
+    mask = np.any(np.isnan(a), axis=1)
+    tmp = a.copy()
+    tmp[mask] = [0.0, 0.0, 0.0, 1.0]
+    Q = QuaternionArray(tmp, order="S")
+    Q.array[mask] = np.nan
+    return Q
+
+
 def make_QA(arr, partial=False):
     """QuaternionArray refuses NaN rows at construction (norm > 0 test), as the repository's own
     test does: build from valid rows, then punch the gaps (partial: a gap row has lost only one of its components)"""
@@ -88,6 +99,7 @@ def replay_table(args):
         # remove_jumps (in place on the object)
         want = build(rows, r["rj"], r["nn"])
         routes = [("QuaternionArray.remove_jumps", lambda: (lambda Q: (Q.remove_jumps(), np.array(Q.array))[1])(make_QA(arr)))]
+        routes.append(("QuaternionArray[order=S].remove_jumps", lambda: (lambda Q: (Q.remove_jumps(), np.roll(np.array(Q.array), 1, axis=1))[1])(make_QA_S(arr))))
         if not has_nan:
             routes.append(("q_correct", lambda: ori.q_correct(arr.copy())))
         for name, fn in routes:
@@ -101,15 +113,17 @@ def replay_table(args):
                 t.fail("C12|%s|rows-differ|%s" % (name, cls), dict(case, got=got, want=want))
         # slerp_nan, both modes
         want = build(rows, r["sn"], [False] * n)
-        for inplace, partial in ((True, False), (False, False)) + (((True, True),) if has_nan else ()):
+        for inplace, partial in ((True, False), (False, False), (False, "S")) + (((True, True),) if has_nan else ()):
             t.calls += 1
 
             def fn():
+                if partial == "S":
+                    return np.roll(np.array(make_QA_S(arr).slerp_nan(inplace=False)), 1, axis=1)
                 Q = make_QA(arr, partial=partial)
                 ret = Q.slerp_nan(inplace=inplace)
                 return np.array(Q.array) if inplace else np.array(ret)
             o = core.outcome(fn)
-            name = "slerp_nan[inplace=%s]" % inplace + ("[gap rows with one NaN component]" if partial else "")
+            name = "slerp_nan[inplace=%s]" % inplace + ("[order=S]" if partial == "S" else "[gap rows with one NaN component]" if partial else "")
             if o[0] != "ok":
                 t.fail("C12|%s|raises-%s|%s" % (name, o[1], cls), dict(case, err=o[2]))
                 continue
